@@ -277,7 +277,9 @@ class GriffeLoader:
                 module_path = export.canonical_path.rsplit(".", 1)[0]  # Remove trailing `.__all__`.
                 try:
                     next_module = self.modules_collection.get_member(module_path)
-                except KeyError:
+                    if next_module.is_alias:
+                        next_module = next_module.final_target
+                except (KeyError, AliasResolutionError, CyclicAliasError):
                     logger.debug("Cannot expand '%s', try pre-loading corresponding package", export.canonical_path)
                     continue
                 if next_module.path not in seen:
@@ -338,7 +340,7 @@ class GriffeLoader:
                 # Try getting the module from which every public object is imported.
                 try:
                     target = self.modules_collection.get_member(member.target_path)  # type: ignore[union-attr]
-                except KeyError:
+                except (KeyError, AliasResolutionError, CyclicAliasError):
                     logger.debug(
                         "Could not expand wildcard import %s in %s: %s not found in modules collection",
                         member.name,
@@ -348,15 +350,15 @@ class GriffeLoader:
                     continue
 
                 # Recurse into this module, expanding wildcards there before collecting everything.
-                if target.path not in seen:
-                    try:
+                try:
+                    if target.path not in seen:
                         self.expand_wildcards(target, external=external, seen=seen)
-                    except (AliasResolutionError, CyclicAliasError) as error:
-                        logger.debug("Could not expand wildcard import %s in %s: %s", member.name, obj.path, error)
-                        continue
 
-                # Collect every imported object.
-                expanded.extend(self._expand_wildcard(member))  # type: ignore[arg-type]
+                    # Collect every imported object.
+                    expanded.extend(self._expand_wildcard(member))  # type: ignore[arg-type]
+                except (AliasResolutionError, CyclicAliasError) as error:
+                    logger.debug("Could not expand wildcard import %s in %s: %s", member.name, obj.path, error)
+                    continue
                 to_remove.append(member.name)
 
             # Recurse in unseen submodules.
